@@ -85,7 +85,7 @@ func C12() *engine.Scenario {
 		ID:         "C12",
 		Level:      "exploration",
 		MapSched:   true,
-		Rule:       "Each run: the Backend stub sends the Agent a command step (JSON) whose strings carry {{matrix}}/{{matrix.DIM}} tokens (inner whitespace, near-misses, doubled, brace-wrapped) at plan-chosen positions - command, label, plugin sources, plugin config keys and values, env values AND names, key, unknown-field keys and values - with a matrix whose values may themselves be token-shaped; the Agent decodes it with CommandStep.UnmarshalJSON and applies a permutation built from the matrix (setup combination or non-skipped adjustment; 1 run in 6 names a missing dimension, 1 in 10 is empty) through InterpolateMatrixPermutation while every map range runs in a sched-tape-chosen order. The reflective dump after must equal the single-pass reference replacement of the dump before on in-scope fields and be unchanged on env names, key, matrix, signature. Fingerprint = (position classes carrying tokens, token-shaped value used, unknown-field map size class, map-order hash). Non-trivial = a token-shaped permutation value is used and an unknown-field or plugin-config key carries a token.",
+		Rule:       "Each run: the Backend stub sends the Agent a command step (JSON) whose strings carry {{matrix}}/{{matrix.DIM}} tokens (inner whitespace, near-misses, doubled, brace-wrapped) at plan-chosen positions - command, label, plugin sources, plugin config keys and values, env values AND names, key, unknown-field keys and values - with a matrix whose values may themselves be token-shaped; the Agent decodes it with CommandStep.UnmarshalJSON and applies a permutation built from the matrix (setup combination or non-skipped adjustment; 1 run in 6 names a missing dimension, 1 in 10 is empty) through InterpolateMatrixPermutation while every map range runs in a sched-tape-chosen order. One run in three the step instead reaches the Agent through Parse of a YAML pipeline that holds it twice, the second copy written as aliases of anchored parts of the first; interpolating the first must leave the second untouched. The reflective dump after must equal the single-pass reference replacement of the dump before on in-scope fields and be unchanged on env names, key, matrix, signature. Fingerprint = (position classes carrying tokens, token-shaped value used, unknown-field map size class, map-order hash). Non-trivial = a token-shaped permutation value is used and an unknown-field or plugin-config key carries a token.",
 		Real:       []string{"CommandStep.UnmarshalJSON", "(*CommandStep).InterpolateMatrixPermutation", "matrixInterpolator.Transform", "interpolateMap/MapValues/Slice/Any", "Matrix.validatePermutation"},
 		Stub:       []string{"Backend (step JSON author)", "reference token scanner", "map iteration scheduler (zzverifsim)", "reflective dump (view)"},
 		Assume:     []string{"cache settings are not in C12's scope list in either direction and are not judged", "inputs where two sibling keys become equal after replacement are outside the domain and counted, not judged"},
